@@ -73,10 +73,20 @@ def _worker(task):
             eng._run_path(ob.harness, prefix)
     except BaseException as e:  # noqa
         err = "%s: %s\n%s" % (type(e).__name__, e, traceback.format_exc()[-2000:])
+    distinct, seen = [], set()
+    for v in eng.violations:
+        try:
+            k = (v.label, ob.key(v.witness, v.label) if ob.key else v.label)
+        except Exception:
+            k = (v.label, "?")
+        if k in seen:
+            continue
+        seen.add(k)
+        distinct.append(v)
     return {
         "name": name,
         "stats": eng.stats.to_json(),
-        "violations": [v.to_json() for v in eng.violations[:50]],
+        "violations": [v.to_json() for v in distinct[:50]],
         "n_violations": len(eng.violations),
         "inconclusive": eng.inconclusive,
         "reach": eng.reach,
@@ -103,13 +113,17 @@ def explore_all(obligations: List[Obligation], nproc: int, total_seconds: float,
     pool = ctx.Pool(processes=nproc)
     try:
         inflight = []   # (handle, name, n_prefixes, hard_deadline)
+        outstanding = [0]
 
         def submit(name, prefixes):
             remaining = max(5.0, deadline - time.time())
             ob = _OBLIGATIONS[name]
             grace = 3.0 * ob.query_timeout_ms / 1000.0 + 60.0
             h = pool.apply_async(_worker, ((name, prefixes, remaining, CHUNK_PATHS),))
-            inflight.append((h, name, len(prefixes), time.time() + CHUNK_SECONDS + grace))
+            # the task may wait in the pool's queue behind the tasks already submitted
+            waves = 1 + (outstanding[0] + 1) // max(1, nproc)
+            outstanding[0] += 1
+            inflight.append((h, name, len(prefixes), time.time() + waves * (CHUNK_SECONDS + grace)))
 
         for name, pf in pending:
             submit(name, pf)
@@ -122,12 +136,14 @@ def explore_all(obligations: List[Obligation], nproc: int, total_seconds: float,
                 if not h.ready():
                     if time.time() > hard:
                         progressed = True
+                        outstanding[0] -= 1
                         results[name]["inconclusive"].append(
                             "a worker exploring %d prefix(es) did not return in time (solver ignored its timeout, or the worker died)" % npf)
                     else:
                         still.append(item)
                     continue
                 progressed = True
+                outstanding[0] -= 1
                 try:
                     r = h.get()
                 except BaseException as e:  # noqa
@@ -138,7 +154,7 @@ def explore_all(obligations: List[Obligation], nproc: int, total_seconds: float,
                 for k, v in r["stats"].items():
                     setattr(st, k, v)
                 agg[r["name"]].add(st)
-                if len(res["violations"]) < 50:
+                if len(res["violations"]) < 400:
                     res["violations"].extend(r["violations"])
                 res["n_violations"] += r["n_violations"]
                 res["inconclusive"].extend(r["inconclusive"])
